@@ -1,5 +1,6 @@
 """C11 — a transaction reference is committed at most once."""
 from checks.enginelib import *
+from checks import stresslib
 
 META = {
     "text": 'Lean: Guard instantiated for references; theorems reference_unique over all accepted event sequences, commit_needs_miss, refused_changes_nothing / found_changes_nothing / loser_changes_nothing (a request whose reservation is refused or whose lookup finds the reference leaves the state unchanged and no entry with the reference is accepted from it). Tie: trace validation (guard-ref); oracle: committed transactions per reference.',
@@ -10,4 +11,13 @@ META = {
 
 
 def run(ctx):
+    area = stresslib.replay_area(ctx)
+    if area == stresslib.AREA:       # a replay of the stress stage: the bounded search alone
+        ctx.l1()
+        stresslib.run_stress(ctx, 'C11')
+        return
     run_check(ctx, 'C11', ["guard-ref"], lambda scn, run: sum(1 for q in scn["requests"] if q.get("ref")) >= 2, 'at least two requests share a reference')
+    if area is not None:
+        return
+    # stage 2: the reservation primitive (no scheduling point inside) under truly simultaneous goroutines
+    stresslib.run_stress(ctx, 'C11')
